@@ -324,6 +324,30 @@ def other_member_hint_cases(T, mir):
     return cases
 
 
+def list_member_sweep(T, mir):
+    """fixed, both tiers: the first adds into EVERY list-valued child member of every class.  Which members are list-valued is taken
+    from the export / build tables (how the writer and the parser treat the member: kind objlist), independently of the MemberSpec_
+    container flag that add() consults; child class from the build table.  add(a): the member is still a list and holds a;
+    add(b), a distinct child: appended; add(a) again: refused as a duplicate.  (A container flag flipped to 0 makes add() replace the
+    list by the bare child.)"""
+    cases = []
+    for p in mir.order:
+        for ek in mir.C[p].get("exp_kids", []):
+            if ek["kind"] != "objlist":
+                continue
+            b = [x for x in T.bld_kids(p) if x["py"] == ek["py"]]
+            c = b[0].get("cls") if b else None
+            if c not in T.C:
+                continue
+            base, variants = one_member_variants(T, c)
+            other = variants[0][1] if variants else None
+            hint = ek["py"] if len(mir.targets(p, c)) > 1 else None
+            calls = [{"child": {"kind": "obj", "tree": t}, "hint": hint, "force": False, "validate": False, "mark": "list-member-sweep:" + m}
+                     for t, m in ((base, "first"), (other, "second-distinct"), (base, "equal-again")) if t is not None]
+            cases.append({"enabled": False, "parent": {"cls": p, "kw": []}, "calls": calls})
+    return cases
+
+
 def warning_scope_cases(T, mir):
     """fixed, both tiers: "refused WITH A WARNING unless forced" as a user's program would see it - the warnings of a whole history
     are recorded in one scope entered before it (no filter re-installed per call), and between the adds the program makes a Cell
@@ -935,6 +959,9 @@ def run(ck):
     ck.extra["related_type_only_pairs"] = {"ancestor": sum(1 for x in related_type_pairs(mir) if x[3] == "ancestor"),
                                            "descendant": sum(1 for x in related_type_pairs(mir) if x[3] == "descendant")}
     fixed_matrix.extend(related)
+    sweep = list_member_sweep(T, mir)
+    ck.extra["list_member_sweep_histories"] = len(sweep)
+    fixed_matrix.extend(sweep)
     scoped = warning_scope_cases(T, mir)
     ck.extra["warning_scope_histories"] = len(scoped)
     fixed_matrix.extend(scoped)
